@@ -332,9 +332,9 @@ type db struct {
 	last  string
 	extra func(d *db, op simrt.Op) bool // property-specific ops; returns true if handled
 
-	aux     interface{}          // property-private state
-	preOp   func(op simrt.Op)    // called before every op
-	onQuery func(q string)       // called with every client query text before it is sent
+	aux     interface{}       // property-private state
+	preOp   func(op simrt.Op) // called before every op
+	onQuery func(q string)    // called with every client query text before it is sent
 }
 
 // dbOpts configures execDBOpt.
@@ -824,15 +824,24 @@ func execDBOpt(o dbOpts) func(c *simrt.Ctx) {
 			return
 		}
 		c.S.SetEager(c.Plan.Knob("eager", 0) != 0)
-		c.Do("c0", func() {
-			for _, op := range c.Plan.Clients[0] {
-				if c.Failed() {
-					return
+		for ci := range c.Plan.Clients {
+			ci := ci
+			c.Go(fmt.Sprintf("c%d", ci), func() {
+				for _, op := range c.Plan.Clients[ci] {
+					if c.Stopped() {
+						return
+					}
+					if ci == 0 {
+						d.apply(op)
+					} else {
+						// further clients only run property-specific ops (the model is client 0's)
+						d.extra(d, op)
+					}
+					c.OpDone()
 				}
-				d.apply(op)
-				c.OpDone()
-			}
-		})
+			})
+		}
+		c.RunTasks()
 		c.S.SetEager(true)
 		c.Do("teardown", func() { d.cl.closeAll() })
 	}
